@@ -410,7 +410,9 @@ def emit_rs(model, recs, view, bindings_path, c_naming=False, namespaces=False, 
     fn make(v: i128, step: bool, idx: &mut u64) -> Self { %(n)s(<%(t)s as VfScalar>::make(v, step, idx)) }
 }""" % {"n": name, "t": fty})
     ext = ['extern "C" {', "    fn vf_layout();"]
-    main = ["fn main() { unsafe {", "    vf_layout();"]
+    # (the body runs on a thread with a very large, lazily committed stack: generated records can be hundreds of MiB and are moved by value)
+    main = ["fn main() { std::thread::Builder::new().stack_size(16usize << 30).spawn(vf_main).unwrap().join().unwrap(); }",
+            "fn vf_main() { unsafe {", "    vf_layout();"]
     for rec in recs:
         tn = rec.rust_name
         rt = ("%s_%s" % (rec.kw, tn)) if c_naming else tn
